@@ -1,18 +1,98 @@
-import Eru.Strategy.Spec
+import Eru.Strategy.ProofsC01Bridge
 /-
 C01 — Deploy plans respect the requested count and each node's capacity.
-Property theorems only; helper lemmas live in Eru/Strategy/Proofs.lean.
+
+"Whenever a deployment plan is produced it names only candidate nodes and gives each a
+non-negative number of new instances no larger than that node's remaining capacity. AUTO,
+GLOBAL and DRAINED place exactly the requested total, EACH places exactly the requested number
+on each of the limited set of nodes (all nodes when no limit), and FILL tops each selected node
+up to the requested level. With a per-node limit, AUTO never leaves a node with more instances
+than the limit."
+
+Property theorems only; the proofs' machinery is in Eru/Strategy/Proofs*.lean.  The model is
+Eru/Strategy/Model.lean (`deploy` = strategy.Deploy); `c01` (Eru/Strategy/Spec.lean) is the very
+predicate the oracle evaluates on the Go implementation's plans.
 -/
 namespace Eru.Props.C01
 open Eru Eru.Strategy
 
-/-- valid candidate set: distinct names, capacities ≥ 1 (up to unlimited), counts ≥ 0 -/
-def Valid (infos : List Info) : Prop :=
-  (infos.map (·.name)).Nodup ∧ ∀ i ∈ infos, 1 ≤ i.cap ∧ i.cap ≤ maxInt ∧ 0 ≤ i.count
+/-- **C01 (all strategies).** For every valid candidate set (distinct names, capacities 1..unlimited,
+counts ≥ 0), every strategy name, requested count and node limit: if `deploy` produces a plan, the plan
+satisfies every clause of C01 (`c01` spells the clauses out per strategy). -/
+theorem c01_holds (sname : String) (s : Strat) (count limit total : Int) (infos : List Info) (p : Plan)
+    (hv : Valid infos) (hs : Strat.ofString? sname = some s)
+    (h : deploy sname count limit infos total = .ok p) : c01 s infos count limit p = true := by
+  unfold deploy at h
+  rw [hs] at h
+  simp only at h
+  split at h
+  · cases h
+  · rename_i hc
+    have hneed : 1 ≤ count := by omega
+    cases s with
+    | auto => exact c01_auto hv hneed h
+    | global => exact c01_global hv hneed h
+    | drained => exact c01_drained hv hneed h
+    | each => exact c01_each hv hneed h
+    | fill =>
+      simp only at h
+      split at h <;> try cases h
+      rename_i d hf
+      exact c01_fill hv hf
 
+/-- a non-positive count is rejected before any strategy runs -/
 theorem deploy_rejects_nonpositive_count (s : String) (count limit total : Int) (infos : List Info)
     (h : count ≤ 0) : ¬ (deploy s count limit infos total).isOk = true := by
   unfold deploy
   cases Strat.ofString? s <;> simp [h, Outcome.isOk]
+
+/-- AUTO/GLOBAL/DRAINED in propositional form: only candidates are named, each gets between 0 and its
+capacity, and exactly `count` instances are placed -/
+theorem total_exact (sname : String) (count limit total : Int) (infos : List Info) (p : Plan)
+    (hv : Valid infos) (hs : sname = "AUTO" ∨ sname = "GLOBAL" ∨ sname = "DRAINED")
+    (h : deploy sname count limit infos total = .ok p) :
+    PlanWithin infos p ∧ sumBy infos (fun i => p.get i.name) = count := by
+  have hcount : 1 ≤ count := by
+    by_cases hc : count ≤ 0
+    · exact absurd (by rw [h]; rfl) (deploy_rejects_nonpositive_count sname count limit total infos hc)
+    · omega
+  have hc' : ¬ count ≤ 0 := by omega
+  rcases hs with rfl | rfl | rfl
+  · simp only [deploy, Strat.ofString?, hc', if_false] at h
+    exact ⟨(auto_plan hv hcount h).1, (auto_plan hv hcount h).2.1⟩
+  · simp only [deploy, Strat.ofString?, hc', if_false] at h
+    exact global_plan hv hcount h
+  · simp only [deploy, Strat.ofString?, hc', if_false] at h
+    exact drained_plan hv hcount h
+
+/-- AUTO with a per-node limit never leaves a node above the limit -/
+theorem auto_respects_limit (count limit total : Int) (infos : List Info) (p : Plan)
+    (hv : Valid infos) (hl : 0 < limit) (h : deploy "AUTO" count limit infos total = .ok p) :
+    ∀ i ∈ infos, 0 < p.get i.name → i.count + p.get i.name ≤ limit := by
+  have hcount : 1 ≤ count := by
+    by_cases hc : count ≤ 0
+    · exact absurd (by rw [h]; rfl) (deploy_rejects_nonpositive_count "AUTO" count limit total infos hc)
+    · omega
+  have hc' : ¬ count ≤ 0 := by omega
+  simp only [deploy, Strat.ofString?, hc', if_false] at h
+  intro i hi hpos
+  have := (auto_plan hv hcount h).2.2 i hi
+  simp only [allowance, hl, if_true] at this
+  omega
+
+/-- non-vacuity: a concrete valid candidate set (ties, an unlimited node) on which plans are produced
+(the heap-based strategies are defined by well-founded recursion, which `decide` cannot unfold; their
+non-vacuity is witnessed by the thousands of plans of every correspondence run) -/
+example : Valid [⟨"a", 0, 1, 2, 1⟩, ⟨"b", 0, 1, maxInt, 0⟩, ⟨"c", 5, 1, 2, 0⟩] ∧
+    deploy "DRAINED" 3 0 [⟨"a", 0, 1, 2, 1⟩, ⟨"b", 0, 1, maxInt, 0⟩, ⟨"c", 5, 1, 2, 0⟩] maxInt
+      = .ok [("c", 2), ("a", 1)] ∧
+    deploy "EACH" 2 2 [⟨"a", 0, 1, 2, 1⟩, ⟨"b", 0, 1, maxInt, 0⟩, ⟨"c", 5, 1, 2, 0⟩] maxInt
+      = .ok [("b", 2), ("a", 2)] ∧
+    deploy "FILL" 2 2 [⟨"a", 0, 1, 2, 1⟩, ⟨"b", 0, 1, maxInt, 0⟩, ⟨"c", 5, 1, 2, 0⟩] maxInt
+      = .ok [("a", 1), ("b", 2)] := by
+  refine ⟨⟨by decide, ?_⟩, by decide, by decide, by decide⟩
+  intro i hi
+  simp only [List.mem_cons, List.mem_nil_iff, or_false] at hi
+  rcases hi with rfl | rfl | rfl <;> simp [maxInt]
 
 end Eru.Props.C01
